@@ -477,6 +477,229 @@ def enum_partial(tier):
     return it()
 
 
+# ------------------------------------------------ arbitrary consistent filters keyed by span
+SPAN_TEMPLATES = [
+    # prefix sign that may be empty
+    ("E: E plus E{0} | E mul E{1} | Sign atom{2};\nSign: tilde{3} | EMPTY{4};\n"
+     "terminals\nplus: '+'{5};\nmul: '*'{6};\ntilde: '~'{7};\natom: 'n'{8};\n"),
+    # operator that may be empty (implicit multiplication): states with three actions on one lookahead
+    ("E: E Op E{0} | tilde E{1} | atom{2};\nOp: plus{3} | mul{4} | EMPTY{5};\n"
+     "terminals\nplus: '+'{6};\nmul: '*'{7};\ntilde: '~'{8};\natom: 'n'{9};\n"),
+    # two nullable helpers next to each other
+    ("E: E Op E{0} | Sign atom{1};\nOp: plus{2} | EMPTY{3};\nSign: tilde{4} | EMPTY{5};\n"
+     "terminals\nplus: '+'{6};\ntilde: '~'{7};\natom: 'n'{8};\n"),
+    # a terminal that is both an infix alternative of the nullable operator and a prefix operator:
+    # SHIFT, a non-empty reduction and an EMPTY reduction meet on one lookahead
+    ("E: E Op E{0} | minus E{1} | atom{2};\nOp: minus{3} | plus{4} | EMPTY{5};\n"
+     "terminals\nplus: '+'{6};\nminus: '-'{7};\natom: 'n'{8};\n"),
+]
+SPAN_TOKENS = [["n", "+", "*", "~"], ["n", "+", "*", "~"], ["n", "+", "~"], ["n", "+", "-"]]
+
+
+def span_grammar(case, marked=True):
+    tpl = SPAN_TEMPLATES[case["template"] % len(SPAN_TEMPLATES)]
+    n = tpl.count("{")
+    marks = [(" {dynamic}" if marked and (case["marks"] >> i) & 1 else "") for i in range(n)]
+    return tpl.format(*marks)
+
+
+def prod_name(p):
+    return "%s: %s" % (p.symbol.name, " ".join(p.rhs[i].name for i in range(len(p.rhs))) or "EMPTY")
+
+
+def decide(mask, kind, name, i, j):
+    """the generated filter: a fixed function of (action kind, production / terminal, span in tokens)"""
+    h = (sum(ord(c) * (k + 3) for k, c in enumerate(name)) * 7 + i * 13 + j * 5 + (1 if kind == "shift" else 0)) % 64
+    return bool((mask >> h) & 1)
+
+
+def decisions_of_tree(t):
+    """(kind, name, i, j) of every node of a canonical tree, spans counted in tokens"""
+    out = []
+
+    def walk(x, i):
+        if T.is_leaf(x):
+            out.append(("shift", x[0], i, i + 1))
+            return i + 1
+        j = i
+        for k in x[2]:
+            j = walk(k, j)
+        out.append(("reduce", "%s: %s" % (x[0], " ".join(x[1]) or "EMPTY"), i, j))
+        return j
+    walk(t, 0)
+    return out
+
+
+def run_span(case, ctx):
+    text_m = span_grammar(case)
+    text_p = span_grammar(case, marked=False)
+    mask = case["mask"]
+    info0 = dict(grammar=text_m, filter="span-keyed mask %#x" % mask)
+    mk = pgl.Grammar.from_string
+    g_marked = mk(text_m)
+    marked_prods = {prod_name(p) for p in g_marked.productions if p.dynamic}
+    marked_terms = {t.name for t in g_marked.terminals.values() if t.dynamic}
+    state = {"text": ""}
+
+    def ntok(pos):
+        return len(state["text"][:pos].split())
+
+    def make(log, conflicts_only=False):
+        """conflicts_only (LR): decide by the mask only where the table offers a choice on this lookahead,
+        accept otherwise - an LR parse survives only if exactly one action is left everywhere"""
+        def f(context, from_state, to_state, action, production, subresults):
+            if action is None:
+                log.append(("init", from_state, to_state, production, subresults))
+                return None
+            if action is SHIFT:
+                name = to_state.symbol.name
+                i = ntok(context.position if not hasattr(context, "possibilities") else context.start_position)
+                d = decide(mask, "shift", name, i, i + 1)
+                if conflicts_only and len(from_state.actions[to_state.symbol]) < 2:
+                    d = True
+                log.append(("shift", name, i, i + 1, d))
+                return d
+            name = prod_name(production)
+            log.append(("reduce", name, len(subresults) if subresults is not None else None, len(production.rhs)))
+            if hasattr(context, "possibilities"):       # GLR: the packed node under construction
+                i, j = ntok(context.start_position), ntok(context.end_position)
+            else:                                       # LR: the stack head; the span is that of the sub-results
+                j = ntok(context.position)
+                i = j - sum(len(leaves_of_lr(r)) for r in subresults)
+            d = decide(mask, "reduce", name, i, j)
+            if conflicts_only and len(from_state.actions[context.token_ahead.symbol]) < 2:
+                d = True
+            log.append(("decided", name, i, j, d))
+            return d
+        return f
+
+    def leaves_of_lr(r):
+        # LR sub-results here are parse tree nodes (build_tree=True)
+        out, stack = [], [r]
+        while stack:
+            x = stack.pop()
+            if x.is_term():
+                out.append(x)
+            else:
+                stack.extend(x.children)
+        return out
+    log_glr, log_lr = [], []
+    plain = pgl.GLRParser(mk(text_p))
+    glr = pgl.GLRParser(mk(text_m), dynamic_filter=make(log_glr))
+    try:
+        lr = pgl.Parser(mk(text_m), prefer_shifts=False, prefer_shifts_over_empty=False, build_tree=True,
+                        dynamic_filter=make(log_lr, conflicts_only=True))
+    except (SRConflicts, RRConflicts):
+        lr = None
+        ctx.label("lr-not-constructible (unmarked conflicts)")
+    words = []
+    for n in range(1, case["max_len"] + 1):
+        words.extend(itertools.product(SPAN_TOKENS[case["template"] % len(SPAN_TEMPLATES)], repeat=n))
+    for w in words:
+        text = " ".join(w)
+        state["text"] = text
+        base = G.run_parse(plain, text)
+        if base.kind != "ok":
+            continue
+        try:
+            all_trees = set(T.expand(base.value.result, limit=3000))
+        except (T.TooManyTrees, T.Cyclic):
+            continue
+        info = dict(expression=text, **info0)
+
+        def allowed(t):
+            for kind, name, i, j in decisions_of_tree(t):
+                if (name in marked_terms if kind == "shift" else name in marked_prods) and \
+                        not decide(mask, kind, name, i, j):
+                    return False
+            return True
+        want = {t for t in all_trees if allowed(t)}
+        # ---------------- GLR: exactly the trees without a rejected decision ----------------
+        del log_glr[:]
+        out = G.run_parse(glr, text)
+        if out.kind == "other":
+            ctx.fail("glr-with-filter-raises", error=repr(out.exc)[:300], **info)
+        check_span_log(log_glr, marked_prods, marked_terms, ctx, info, "GLR")
+        if not want:
+            if out.kind != "syntax":
+                ctx.fail("glr-reject-filter-should-leave-no-tree", outcome=out.kind, **info)
+        else:
+            if out.kind != "ok":
+                ctx.fail("glr-reject-filter-loses-all-trees", expected=len(want), **info)
+            got = set(T.expand(out.value.result, limit=6000))
+            if got - want:
+                bad = sorted(got - want, key=repr)[0]
+                why = [d for d in decisions_of_tree(bad)
+                       if (d[1] in marked_terms if d[0] == "shift" else d[1] in marked_prods)
+                       and not decide(mask, *d)] if bad in all_trees else "not a tree of the unfiltered forest"
+                ctx.fail("rejected-action-was-taken", parser="GLR", tree=repr(bad)[:300], rejected=repr(why)[:200],
+                         **info)
+            if want - got:
+                ctx.fail("accepted-actions-were-not-taken", parser="GLR", missing=repr(sorted(want - got, key=repr)[0])[:300],
+                         have=len(got), want=len(want), **info)
+        # ---------------- LR: whatever it returns contains no rejected decision --------------
+        if lr is not None:
+            del log_lr[:]
+            lo = G.run_parse_soft(lr, text, 1.0)
+            # what LR raises when the filter leaves two actions (DynamicDisambiguationConflict) or none
+            # (today an IndexError) is not part of the property: only results are judged
+            if lo.kind == "other":
+                ctx.label("lr-raises:" + type(lo.exc).__name__)
+            if lo.kind != "timeout":
+                check_span_log(log_lr, marked_prods, marked_terms, ctx, info, "LR")
+            if lo.kind == "ok":
+                t = T.canon(lo.value)
+                if t not in all_trees:
+                    ctx.fail("lr-tree-is-not-a-derivation", tree=repr(t)[:300], **info)
+                # no decision the filter rejected during this parse is part of the result
+                # (the same token / span can be offered again from another state - a '-' first as infix, then
+                # as prefix operator - and be accepted there: what counts is that it was never accepted)
+                keys = [(("shift" if c[0] == "shift" else "reduce", c[1], c[2], c[3]), c[4])
+                        for c in log_lr if c[0] in ("shift", "decided")]
+                rejected = {k for k, d in keys if not d} - {k for k, d in keys if d}
+                taken = rejected & set(decisions_of_tree(t))
+                if taken:
+                    ctx.fail("rejected-action-was-taken", parser="LR", tree=repr(t)[:300],
+                             rejected=repr(sorted(taken))[:200], **info)
+                ctx.label("lr-trees-checked")
+                if rejected:
+                    ctx.label("lr-trees-checked-after-a-rejection")
+        ctx.label("expressions")
+        if len(all_trees) > len(want):
+            ctx.nontrivial([case["template"], case["marks"], mask, text],
+                           sample={"grammar": text_m, "expression": text, "unfiltered_trees": len(all_trees),
+                                   "allowed_trees": len(want)})
+
+
+def check_span_log(log, marked_prods, marked_terms, ctx, info, who):
+    if not log or log[0][0] != "init" or any(x is not None for x in log[0][1:]):
+        ctx.fail("first-filter-call-is-not-the-initialisation-call", parser=who, first=repr(log[:1])[:200], **info)
+    for c in log[1:]:
+        if c[0] == "init":
+            ctx.fail("initialisation-call-repeated-within-a-parse", parser=who, **info)
+        if c[0] == "shift" and c[1] not in marked_terms:
+            ctx.fail("filter-called-for-unmarked-terminal", parser=who, terminal=c[1], **info)
+        if c[0] == "reduce":
+            if c[1] not in marked_prods:
+                ctx.fail("filter-called-for-unmarked-production", parser=who, production=c[1], **info)
+            if c[2] != c[3]:
+                ctx.fail("filter-subresults-do-not-match-production", parser=who, production=c[1], subresults=c[2],
+                         rhs=c[3], **info)
+
+
+def strat_span(tier):
+    @st.composite
+    def c(draw):
+        full = draw(st.integers(0, 2)) == 0
+        return {"template": draw(st.integers(0, len(SPAN_TEMPLATES) - 1)),
+                "marks": 0x3ff if full else draw(st.integers(1, 0x3ff)),
+                # mostly-accepting masks: union of two draws
+                "mask": draw(st.integers(0, 2 ** 64 - 1)) | draw(st.integers(0, 2 ** 64 - 1)),
+                "max_len": draw(st.sampled_from([4, 4, 5]))}
+    return c()
+
+
+
 @st.composite
 def cases(draw):
     k = draw(st.integers(1, 4))
@@ -521,6 +744,7 @@ SUBCHECKS = [
     SubCheck("two-operator-exhaustive", run_case, enumerate=enum_small),
     SubCheck("random", run_case, strategy=strat, examples={"quick": 640, "thorough": 8000}),
     SubCheck("one-sided-marking", run_partial, enumerate=enum_partial),
+    SubCheck("span-keyed-filters", run_span, strategy=strat_span, examples={"quick": 1600, "thorough": 16000}),
 ]
 
 
